@@ -22,6 +22,9 @@ def mixed_scalar_templates():
             # take() selecting its SCALAR operand, inside a sum: the update adds the scalar wherever the other term is present,
             # whether or not the take()'s tensors intersect there (genuine defect F19, known finding)
             ("T6", E("Z", ["m"], U.take(T("A", "m"), V("a"), T("B", "m"), sel=1), times(T("C", "m")))),
+            # the same defect when the selected operand is a tensor that is already resolved at an outer loop level
+            # (C[m] inside the k loop): it is added wherever the other term is present at the inner level
+            ("T7", E("Z", ["m"], U.take(T("A", "k", "m"), T("B", "k"), T("C", "m"), sel=2), times(T("D", "k", "m")))),
             ("S8", E("Z", ["m"], times(V("a"), T("A", "k", "m"), T("B", "k", "m")), times(T("C", "k", "m"))))]
 
 
